@@ -9,10 +9,10 @@ DESIGN_REF = '3.13'
 CHUNK = 40
 CHUNK_WALL = 600
 RULE = ('for each usage script {blocking acquire; timed acquire_ctx; with on a default-timeout lock; reentrant acquire nested 3 deep; two '
-        'rounds of with} a real child process is first stepped alone to completion to count its controller steps n (every line event '
+        'rounds of with; a daemon-style process with stdin closed that execs a helper program while holding} a real child process is first stepped alone to completion to count its controller steps n (every line event '
         'inside aiuti/filelock.py plus critical-section markers); then for EVERY k in 0..n a fresh child is stepped to event k and '
-        'SIGKILLed, with 0, 1 and 2 other stepped contender processes parked at seeded positions (3 seeded contender configurations per '
-        'k in quick, 8 in thorough). After the kill: if the kernel reports the lock free, a fresh process stepped alone must enter its '
+        'SIGKILLed, with 0, 1 and 2 other stepped contender processes parked at seeded positions (4 configurations per k in quick, 12 in thorough: contenders x killed process reaped '
+        'at once / left a zombie x probe through the blocking / the polling acquire path). After the kill: if the kernel reports the lock free, a fresh process stepped alone must enter its '
         'critical section within the step count of an uncontended acquire (+5); all survivors then run to completion under the overlap '
         'detector (O_EXCL marker + controller ledger) and a late fresh process must again acquire. The lock file is never cleaned up. '
         'Every case kills exactly one process; distinct by event-log digest.')
@@ -31,7 +31,7 @@ SCRIPTS = list(pw.CRASH_SCRIPTS)
 
 
 def batches(tier):
-    cfgs = 3 if tier == 'quick' else 8
+    cfgs = 4 if tier == 'quick' else 12
     out = []
     for name in SCRIPTS:
         n = pw.count_events(name)
@@ -47,7 +47,9 @@ def make_case(batch, seed):
     for _ in range(ncont):
         sc = pw.gen_script(rng)
         conts.append({'script': sc, 'advance': rng.randrange(0, 60)})
-    return {'prog': {'world': 'proc-crash', 'script': batch['profile'], 'kill_at': k, 'contenders': conts},
+    # the killed process is reaped at once or left a zombie; the probe uses the blocking or the polling path
+    return {'prog': {'world': 'proc-crash', 'script': batch['profile'], 'kill_at': k, 'contenders': conts,
+                     'zombie': cfg % 2 == 1, 'timed_probe': (cfg // 2) % 2 == 1},
             'sched': {'seed': seed}}
 
 
